@@ -838,7 +838,9 @@ func (t *Topic) sessToForeground(sess *Session) {
 		s = s.multi
 	}
 
-	if pssd, ok := t.sessions[s]; ok && !pssd.isChanSub {
+	// Sessions of channel readers are counted too (the count is decremented when they leave); sendSubNotifications
+	// sends nothing for a reader.
+	if pssd, ok := t.sessions[s]; ok {
 		uid := pssd.uid
 		if s.isMultiplex() {
 			// If 's' is a multiplexing session, then sess is a proxy and it contains correct UID.
